@@ -997,7 +997,7 @@ Lemma other_mechs_never_pass : forall a,
   a = cram_impl \/ a = xoauth2_impl \/ (exists n, a = scram_impl n) -> never_pass a.
 Proof.
   intros a [H | [H | [n H]]]; subst; split; simpl; intros;
-    try (inversion H; subst; discriminate); try (destruct more; discriminate).
+    try (inversion H; subst; discriminate); try (destruct more; try destruct empty; try destruct k; discriminate).
 Qed.
 
 (* the preference lists of auto-discovery never name a *-NOENC type *)
